@@ -149,6 +149,9 @@ Expected(q, store) ==
          ELSE IF q.q.alg \in {"md5", "junk"} THEN A(X4 \cup {201, 202}, {"DIGEST_INVALID", "UNSUPPORTED", "BLOB_UPLOAD_INVALID"})
          ELSE IF q.q.digest \in {"short", "badalg"} \/ (q.q.digest = "none" /\ q.q.mount = "short") THEN A(X4 \cup {201}, {"DIGEST_INVALID"})
          ELSE IF q.q.digest \in {"mismatch", "present", "match"} THEN A(X4 \cup {201}, {"BLOB_UPLOAD_INVALID", "DIGEST_INVALID"})
+         \* a mount whose source is outside the repository grammar is never satisfied (a directory of that name holding the
+         \* blob exists next to the repositories): the request falls back to a session
+         ELSE IF q.q.mount = "present" /\ q.q.from \in {"upper", "dotdot"} /\ q.repo = "empty" THEN A({202}, {})
          ELSE A({201, 202}, {})
     [] q.ep = "session" ->
          IF q.m \in {"POST", "HEAD"} \/ q.a = "pathy" THEN Any4xx      \* (dot segments in the id are cleaned into another route)
